@@ -318,10 +318,12 @@ func c19Edited(c *engine.Ctx, a, b int) {
 	cs := c19Case{K: "edited", Hist: []int{a}, Op: b}
 	var before, edited, after message.IKEPayloadContainer
 	var err error
+	var pre string
 	if pi := engine.Catch(func() {
 		if err = ops[b].apply(&before); err != nil {
 			return
 		}
+		pre = ref.CanonPayloads(univ.ProjectPayloads(before))
 		if err = ops[a].apply(&edited); err != nil {
 			return
 		}
@@ -336,6 +338,9 @@ func c19Edited(c *engine.Ctx, a, b int) {
 		return
 	}
 	want := ref.CanonPayloads(ops[b].expect)
+	if pre != want {
+		return // wrong from the start: reported by the sequence sub-check under its own signature
+	}
 	if got := ref.CanonPayloads(univ.ProjectPayloads(before)); got != want {
 		c.Violate("built-payload-changes-when-another-is-edited/"+ops[b].name, fmt.Sprintf("%s was built, then the result of %s (another container) was overwritten by its holder: the first container now holds %s, arguments say %s", ops[b].name, ops[a].name, trs(got), trs(want)), cs)
 		return
